@@ -32,6 +32,9 @@ pub fn run(seed: u64, tier: &str, w: &mut dyn Write) -> usize {
         many_queries(1, FriReductionStrategy::ConstantArityBits(2, 2), 20, true, 2),
         many_queries(3, FriReductionStrategy::MinSize(None), 35, false, 3),
         many_queries(1, FriReductionStrategy::Fixed(vec![1, 1, 1]), 50, false, 2),
+        // the last commit-phase tree is exactly its cap (paths with zero siblings): 2^3..2^5 rows fold down to a
+        // codeword of 2^4 entries under a cap of height 4
+        many_queries(4, FriReductionStrategy::ConstantArityBits(1, 1), 30, false, 2),
     ];
     if tier == "thorough" {
         cfgs.push(many_queries(0, FriReductionStrategy::ConstantArityBits(2, 1), 30, true, 2));   // (arity_bits <= final bits + 1: fri_params asserts it)
